@@ -22,7 +22,7 @@ abbrev groupURLs (gs : List PGroup) : List String := groupURLs' gs
 
 /-- where a URL in the detection result can come from -/
 def Src (A : Atoms) (gs : List PGroup) (u : String) : Prop :=
-  u ∈ groupURLs gs ∨ u = A.docURL ∨ u = trimSlash A.docURL
+  u ∈ groupURLs gs ∨ u = A.docURL ∨ u = trimPathSlash A.docURL
 
 /-- the page list of the detected parameter only holds scanned URLs, the document URL, or "" -/
 theorem detect_pages_src (A : Atoms) (gs : List PGroup) (arg : String) :
@@ -45,7 +45,7 @@ theorem number_links (A : Atoms) (gs : List PGroup) (arg s1 s2 : String) :
 two spellings `FindPagination` compares with — `s2`, the escaped form without user info, is
 how `DetectParamInfo` spells it — PrevPage is empty or a scanned URL, never the page itself -/
 theorem number_prev_is_anchor (A : Atoms) (gs : List PGroup) (arg s1 s2 : String)
-    (h1 : A.docURL = s1 ∨ A.docURL = s2) (h2 : trimSlash A.docURL = s1 ∨ trimSlash A.docURL = s2) :
+    (h1 : A.docURL = s1 ∨ A.docURL = s2) (h2 : trimPathSlash A.docURL = s1 ∨ trimPathSlash A.docURL = s2) :
     let r := numberPrevNext (detectParamInfo A gs arg) s1 s2
     r.2 = "" ∨ (isJs r.2 = false ∧ r.2 ∈ groupURLs gs) := by
   intro r
